@@ -70,6 +70,12 @@ def typePos : GType → Pos
   | .list _ p => p
   | .nonNull t => typePos t
 
+/-- position of the innermost type name (`original_node_ref` of the `NamedType` node) -/
+def namedPos : GType → Pos
+  | .named _ p => p
+  | .list t _ => namedPos t
+  | .nonNull t => namedPos t
+
 /-- remove every leading non-null wrapper -/
 def stripNN : GType → GType
   | .nonNull t => stripNN t
@@ -123,9 +129,9 @@ def isSubtype (S : Schema) : GType → GType → Option Bool
 def scalarAccepts (name : Name) (v : Value) : Bool :=
   if name == "Boolean" then (match v with | .bool .. | .null .. => true | _ => false)
   else if name == "Int" then (match v with | .int .. | .null .. => true | _ => false)
-  else if name == "Float" then (match v with | .float .. | .null .. => true | _ => false)
+  else if name == "Float" then (match v with | .float .. | .int .. | .null .. => true | _ => false)
   else if name == "String" then (match v with | .str .. | .null .. => true | _ => false)
-  else if name == "ID" then (match v with | .str .. | .null .. => true | _ => false)
+  else if name == "ID" then (match v with | .str .. | .int .. | .null .. => true | _ => false)
   else true
 
 /-- "non-nullable and without default value" -/
@@ -134,7 +140,7 @@ def InputValueDef.required (d : InputValueDef) : Bool := d.ty.isNonNull && d.def
 /-- `res && !(seen_fields < value.fields.len())` of the input-object arm -/
 def objShapeOk (defs : List InputValueDef) (fs : List (Name × Pos × Value)) : Bool :=
   !(defs.any fun ef => !(fs.any (·.1 == ef.name)) && InputValueDef.required ef) &&
-  !((defs.filter fun ef => fs.any (·.1 == ef.name) || !(InputValueDef.required ef)).length < fs.length)
+  !((defs.filter fun ef => fs.any (·.1 == ef.name)).length < fs.length)
 
 mutual
 /-- `check_value(definitions, None, value, expected_type, result)` -/
@@ -163,42 +169,32 @@ def checkValue (S : Schema) : Value → GType → List Err
         | _ => [(.TypeMismatch, p)]
     | .nonNull _ => []
   | .obj fs p, ty =>
-    match stripNN ty with
-    | .list _ _ => [(.TypeMismatch, p)]
-    | .named n np =>
-      match S.typeDef? n with
-      | none => [(.TypeSystemError, np)]
-      | some td =>
-        match td.kind with
-        | .scalar => if scalarAccepts td.name (.obj [] p) then [] else [(.TypeMismatch, p)]
-        | .input =>
-          checkObjFields S fs td.inputs ++ (if objShapeOk td.inputs fs then [] else [(.TypeMismatch, p)])
-        | _ => [(.TypeMismatch, p)]
-    | .nonNull _ => []
+    -- a non-list, non-null value for a list type is checked against the item type (list input coercion),
+    -- so it ends up being checked against the innermost named type
+    match S.typeDef? ty.unwrapped with
+    | none => [(.TypeSystemError, namedPos ty)]
+    | some td =>
+      match td.kind with
+      | .scalar => if scalarAccepts td.name (.obj [] p) then [] else [(.TypeMismatch, p)]
+      | .input =>
+        checkObjFields S fs td.inputs ++ (if objShapeOk td.inputs fs then [] else [(.TypeMismatch, p)])
+      | _ => [(.TypeMismatch, p)]
   | .enum e p, ty =>
-    match stripNN ty with
-    | .list _ _ => [(.TypeMismatch, p)]
-    | .named n np =>
-      match S.typeDef? n with
-      | none => [(.TypeSystemError, np)]
-      | some td =>
-        match td.kind with
-        | .scalar => if scalarAccepts td.name (.enum e p) then [] else [(.TypeMismatch, p)]
-        | .enum => if td.values.all (·.name != e) then [(.UnknownEnumMember, p)] else []
-        | _ => [(.TypeMismatch, p)]
-    | .nonNull _ => []
+    match S.typeDef? ty.unwrapped with
+    | none => [(.TypeSystemError, namedPos ty)]
+    | some td =>
+      match td.kind with
+      | .scalar => if scalarAccepts td.name (.enum e p) then [] else [(.TypeMismatch, p)]
+      | .enum => if td.values.all (·.name != e) then [(.UnknownEnumMember, p)] else []
+      | _ => [(.TypeMismatch, p)]
   | v, ty =>
     -- int / float / str / bool literals
-    match stripNN ty with
-    | .list _ _ => [(.TypeMismatch, v.pos)]
-    | .named n np =>
-      match S.typeDef? n with
-      | none => [(.TypeSystemError, np)]
-      | some td =>
-        match td.kind with
-        | .scalar => if scalarAccepts td.name v then [] else [(.TypeMismatch, v.pos)]
-        | _ => [(.TypeMismatch, v.pos)]
-    | .nonNull _ => []
+    match S.typeDef? ty.unwrapped with
+    | none => [(.TypeSystemError, namedPos ty)]
+    | some td =>
+      match td.kind with
+      | .scalar => if scalarAccepts td.name v then [] else [(.TypeMismatch, v.pos)]
+      | _ => [(.TypeMismatch, v.pos)]
 /-- the elements of a list literal against the item type -/
 def checkValueList (S : Schema) : List Value → GType → List Err
   | [], _ => []
